@@ -34,7 +34,7 @@ CASE_TIMEOUT = 240
 SHARD_TIMEOUT = {"quick": 900, "thorough": 7200}
 REQUIRED = {"quick": {"external_runs": 25, "trace_pairs_compared": 8, "kill_runs": 8, "evaluator_exception_runs": 3, "process_table_checked": 25, "messages_counted": 100, "explicit_start_vector_pairs": 3, "__nontrivial__": 20},
             "thorough": {"external_runs": 300, "trace_pairs_compared": 80, "kill_runs": 120, "evaluator_exception_runs": 50, "process_table_checked": 300, "messages_counted": 2000, "__nontrivial__": 250}}
-N = {"quick": {"diff": 18, "kill": 3, "exc": 2}, "thorough": {"diff": 200, "kill": 30, "exc": 20}}
+N = {"quick": {"diff": 27, "kill": 3, "exc": 2}, "thorough": {"diff": 270, "kill": 30, "exc": 20}}
 MAX_ROUNDS_AFTER_DEATH = 6
 
 
@@ -52,7 +52,8 @@ def cases(tier, seed):
 
 
 def gen_spec(rng, i):
-    method = ["slsqp", "cobyla", "l-bfgs-b", "nelder-mead", "differential_evolution", "slsqp"][i % 6]
+    # powell, cg and bfgs ask again for a point of an earlier line search: every request has to reach the parent
+    method = ["slsqp", "cobyla", "l-bfgs-b", "nelder-mead", "differential_evolution", "slsqp", "powell", "cg", "bfgs"][i % 9]
     V, R, P = int(rng.integers(2, 4)), int(rng.integers(1, 3)), 2
     n_con = int(rng.integers(0, 2)) if method in ("slsqp", "cobyla", "differential_evolution") else 0
     F = 1 + n_con
@@ -76,7 +77,12 @@ def gen_spec(rng, i):
             if rng.random() < 0.5:
                 spec["ptypes"], spec["magnitudes"] = [2] * V, [0.01]
         spec["optimizer"] = {"method": method, "max_iterations": 2, "options": {"maxiter": 2}, "speculative": bool(rng.random() < 0.3), "split_evaluations": bool(rng.random() < 0.3)}
-        if rng.random() < 0.3:
+        if method in ("powell", "cg", "bfgs"):
+            # long enough for a second line search (that is where an earlier point is asked for again)
+            spec["optimizer"].update({"max_iterations": 4, "options": {"maxiter": 4}, "speculative": False})
+            if rng.random() < 0.5:
+                spec["optimizer"]["max_functions"] = int(rng.integers(20, 45))
+        elif rng.random() < 0.3:
             spec["optimizer"]["max_functions"] = int(rng.integers(2, 5))
     if rng.random() < 0.3:
         spec["nan"] = [{"call": int(rng.integers(0, 4)), "r": int(rng.integers(R)), "p": -1, "col": 0}]
